@@ -1,6 +1,19 @@
 """CPU time of CParser().parse on each text of a JSON list read from stdin (fresh parser per text, after a warm-up parse).
-Run in a subprocess by the C16 check; prints a JSON list of [CPU seconds (-1 for a text that is not accepted), number of Python-level and C-level function calls - a deterministic cost]."""
-import json, os, sys, time
+Run in a subprocess by the C16 check; prints a JSON list of [CPU seconds (-1 for a text that is not accepted, -2 for a parse
+that uses more than CAP seconds of CPU time, -3 for a text skipped after two such parses), number of Python-level and C-level function calls - a deterministic cost]."""
+import json, os, signal, sys, time
+CAP = float(os.environ.get("VERIF_PARSE_CPU_CAP", "25"))
+
+
+class OverBudget(BaseException):
+    pass
+
+
+def _over(signum, frame):
+    raise OverBudget()
+
+
+signal.signal(signal.SIGVTALRM, _over)
 sys.path.insert(0, os.path.dirname(os.path.abspath(__file__)))
 import lib  # noqa: puts the repository under test first on sys.path
 from pycparser import c_parser
@@ -8,15 +21,26 @@ texts = json.load(sys.stdin)
 c_parser.CParser().parse("int warm = 1; void f(void){ switch (warm) { case 1: break; } }", "w.c")
 out = []
 sys.setrecursionlimit(20000)
+over = 0
 for t in texts:
+    if over >= 2:
+        out.append([-3.0, 0])       # not measured: two parses already ran over the budget, which the caller reports
+        continue
     best = None
     for _ in range(2):
         t0 = time.process_time()
+        signal.setitimer(signal.ITIMER_VIRTUAL, CAP)
         try:
             c_parser.CParser().parse(t, "t.c")
+        except OverBudget:
+            best = -2.0
+            over += 1
+            break
         except Exception:
             best = -1.0
             break
+        finally:
+            signal.setitimer(signal.ITIMER_VIRTUAL, 0)
         dt = time.process_time() - t0
         best = dt if best is None else min(best, dt)
     calls = [0]
@@ -24,12 +48,14 @@ for t in texts:
         def prof(frame, event, arg):
             if event == "call" or event == "c_call":
                 calls[0] += 1
+        signal.setitimer(signal.ITIMER_VIRTUAL, 8 * CAP)
         sys.setprofile(prof)
         try:
             c_parser.CParser().parse(t, "t.c")
-        except Exception:
+        except (Exception, OverBudget):
             pass
         finally:
             sys.setprofile(None)
+            signal.setitimer(signal.ITIMER_VIRTUAL, 0)
     out.append([best, calls[0]])
 json.dump(out, sys.stdout)
